@@ -1584,4 +1584,93 @@ Section NoClose.
     eapply suf_trans; [apply skip_spaces_fuel_suf|]. eapply suf_trans; [exact H2 | exact H1].
   Qed.
 End NoClose.
+(* ---------------- non-vacuity: the hypotheses are satisfiable, the conclusion is what the model computes ----------------
+   A toy instance of the float oracles (a number IS its text) satisfies every oracle hypothesis of this
+   file; on concrete surface inputs of the three shipped formats the side conditions, the meaning and the
+   back-off conditions evaluate to true and the model parser (run by vm_compute, independently of
+   TermParses) returns exactly the documented meaning. *)
+Definition toy_in01 (x : str) : bool := nonempty x && forallb is_float_char x.
+Definition toy_read (s : str) : option str := if toy_in01 s then Some s else None.
+Definition toy_zero : str := [48]%N.
+Definition toy_show (x : str) : str := x.
+Definition toy_alnum (c : N) : bool := is_ascii_digit c || ((65 <=? c) && (c <=? 90))%N || ((97 <=? c) && (c <=? 122))%N.
+
+Lemma toy_oracles_ok :
+  toy_read [] = None /\ toy_in01 toy_zero = true /\
+  (forall x, toy_in01 x = true -> toy_read (toy_show x) = Some x) /\
+  (forall x, toy_in01 x = true -> toy_show x <> [] /\ Forall (fun c => is_float_char c = true) (toy_show x)).
+Proof.
+  split; [reflexivity|]. split; [reflexivity|]. split.
+  - intros x H. unfold toy_read, toy_show. now rewrite H.
+  - intros x H. unfold toy_in01 in H. apply andb_true_iff in H as [H1 H2]. split; [now apply nonempty_ne | now apply forallb_Forall_iff].
+Qed.
+
+(* ` $ 0.5 ;0.75 ;1$  < a-->  b >. :! -12:  %1; 0.9 % ` with the keywords of each format *)
+Definition ex_task : snarsese :=
+  {| sn_lead := 1;
+     sn_budget := Some ({| nl_sp0 := 1; nl_gaps := fun _ => (1, 0)%nat; nl_texts := [[48; 46; 53]; [48; 46; 55; 53]; [49]]%N; nl_sp1 := 0 |}, 2%nat);
+     sn_term := SStmt 0 1 0 2 1 (SAtom 6 [97]%N) (SAtom 6 [98]%N);
+     sn_punct := Some (0%nat, 0%nat);
+     sn_stamp := Some (1%nat, {| ss_arm := 0; ss_sp0 := 0; ss_sp1 := 1; ss_int := [45; 49; 50]%N; ss_sp2 := 0 |});
+     sn_truth := Some (2%nat, {| nl_sp0 := 0; nl_gaps := fun _ => (0, 1)%nat; nl_texts := [[49]; [48; 46; 57]]%N; nl_sp1 := 1 |});
+     sn_trail := 1 |}.
+(* a question with a stamp: `<a-->b>? :|:` *)
+Definition ex_question : snarsese :=
+  {| sn_lead := 0; sn_budget := None; sn_term := SStmt 0 0 0 0 0 (SAtom 6 [97]%N) (SAtom 6 [98]%N);
+     sn_punct := Some (0%nat, 2%nat);
+     sn_stamp := Some (1%nat, {| ss_arm := 2; ss_sp0 := 0; ss_sp1 := 0; ss_int := []; ss_sp2 := 0 |});
+     sn_truth := None; sn_trail := 0 |}.
+(* a truth without punctuation: the value is the term, the truth is dropped *)
+Definition ex_dropped : snarsese :=
+  {| sn_lead := 0; sn_budget := None; sn_term := SAtom 6 [97]%N; sn_punct := None; sn_stamp := None;
+     sn_truth := Some (1%nat, {| nl_sp0 := 0; nl_gaps := fun _ => (0, 0)%nat; nl_texts := [[49]]%N; nl_sp1 := 0 |});
+     sn_trail := 0 |}.
+(* ASCII: the independent variable `$x` as a judgement, `$x.`: the budget attempt fails and backs off *)
+Definition ex_dollar : snarsese :=
+  {| sn_lead := 0; sn_budget := None; sn_term := SAtom 1 [120]%N; sn_punct := Some (0%nat, 0%nat); sn_stamp := None;
+     sn_truth := None; sn_trail := 0 |}.
+
+Definition toy_unamb : sterm -> str -> bool := fun _ _ => true.
+
+(* side condition, back-off conditions, meaning = what the parser model returns *)
+Definition ex_check (E : efmt) (s : snarsese) : bool :=
+  sent_ok E && sent_unamb str toy_read toy_zero toy_in01 E toy_unamb s
+  && match odesugar_narsese str toy_read toy_in01 s with Some _ => true | None => false end.
+Definition ex_parsed (E : efmt) (s : snarsese) : option (narsese str) :=
+  match parse_narsese str toy_read toy_zero toy_in01 toy_alnum E (render_narsese E s) with POk v _ => Some v | _ => None end.
+
+Lemma ex_shipped_task :
+  forallb (fun E => ex_check E ex_task) shipped_formats = true /\
+  map (fun E => ex_parsed E ex_task) shipped_formats = map (fun _ => odesugar_narsese str toy_read toy_in01 ex_task) shipped_formats /\
+  map (fun E => nv_is_task (match ex_parsed E ex_task with Some v => v | None => NTerm placeholder end)) shipped_formats = [true; true; true].
+Proof. repeat split; vm_compute; reflexivity. Qed.
+
+Lemma ex_shipped_question :
+  forallb (fun E => ex_check E ex_question) shipped_formats = true /\
+  map (fun E => ex_parsed E ex_question) shipped_formats = map (fun _ => odesugar_narsese str toy_read toy_in01 ex_question) shipped_formats.
+Proof. repeat split; vm_compute; reflexivity. Qed.
+
+Lemma ex_shipped_dropped :
+  forallb (fun E => ex_check E ex_dropped) shipped_formats = true /\
+  map (fun E => ex_parsed E ex_dropped) shipped_formats = [Some (NTerm (TName Word [97]%N)); Some (NTerm (TName Word [97]%N)); Some (NTerm (TName Word [97]%N))].
+Proof. repeat split; vm_compute; reflexivity. Qed.
+
+Lemma ex_ascii_dollar :
+  ex_check FORMAT_ASCII ex_dollar = true /\
+  starts (task_budget_brackets_0 FORMAT_ASCII) (from_term FORMAT_ASCII ex_dollar) = true /\
+  ex_parsed FORMAT_ASCII ex_dollar = Some (NSentence (SJudgement (TName VariableIndependent [120]%N) TruthEmpty Eternal)).
+Proof. repeat split; vm_compute; reflexivity. Qed.
+
+(* the canonical input of a task is what the formatter prints, in every shipped format *)
+Definition ex_value : narsese str :=
+  NTask (SJudgement (TBox2 Inheritance (TName Word [97]%N) (TName Word [98]%N)) (TruthDouble [49]%N [48; 46; 57]%N) (Fixed (-12)),
+         BudgetTriple [48; 46; 53]%N [48; 46; 55; 53]%N [49]%N).
+Definition ex_value_tree (kt : nat) : sterm := SStmt 0 0 kt kt 0 (SAtom 6 [97]%N) (SAtom 6 [98]%N).
+Lemma ex_shipped_canon :
+  map (fun Ek => fmt_narsese str toy_show (fst Ek) ex_value) [(FORMAT_ASCII, 1%nat); (FORMAT_LATEX, 1%nat); (FORMAT_HAN, 0%nat)] =
+  map (fun Ek => render_narsese (fst Ek) (canon_narsese str toy_show (snd Ek) 1 (ex_value_tree (snd Ek)) ex_value))
+      [(FORMAT_ASCII, 1%nat); (FORMAT_LATEX, 1%nat); (FORMAT_HAN, 0%nat)] /\
+  map (fun Ek => ex_parsed (fst Ek) (canon_narsese str toy_show (snd Ek) 1 (ex_value_tree (snd Ek)) ex_value))
+      [(FORMAT_ASCII, 1%nat); (FORMAT_LATEX, 1%nat); (FORMAT_HAN, 0%nat)] = [Some ex_value; Some ex_value; Some ex_value].
+Proof. split; vm_compute; reflexivity. Qed.
 (*MARK*)
